@@ -198,6 +198,16 @@ def run_engine_check(pid, tier, seed, wd):
                     script["ops"].append({"op": "ins", "k": "p%d" % i, "size": 1, "mem": mem})
                 for k in ("k1", "k2", "k3", "p1"):
                     script["ops"].append({"op": "get", "k": k})
+                # ... and stale birth stamps as an entry served after its time
+                if script["cfg"]["ttl"]:
+                    for k in ("k1", "k2", "k3"):
+                        script["ops"].append({"op": "ins", "k": k, "size": 1, "mem": mem})
+                    for i in range(script["cfg"]["ttl"]):
+                        for k in ("k1", "k2", "k3"):
+                            script["ops"].append({"op": "get", "k": k})
+                        script["ops"].append({"op": "tick", "d": 1})
+                    for k in ("k1", "k2", "k3", "p1", "p2"):
+                        script["ops"].append({"op": "get", "k": k})
                 scripts.append(script)
                 f.write(json.dumps(script) + "\n")
         os.makedirs(REPLAYS, exist_ok=True)
@@ -280,3 +290,36 @@ def run_engine_check(pid, tier, seed, wd):
         "spec_drift": drift_notes[:20],
     }
     return violations, drift_notes, coverage, time.time() - t_start
+
+
+def run_memest_check(pid, tier, seed, wd):
+    """C05, estimator fidelity: est = Footprint(descriptor) (MemEst.tla) for values of the standard types."""
+    t0 = time.time()
+    n = 2500 if tier == "thorough" else 400
+    tr = os.path.join(wd, "memest.ndjson")
+    rs = harness_json(["memest", "--seed", str(seed), "--n", str(n), "--out", tr])
+    cfg = os.path.join(wd, "MemEst.cfg")
+    open(cfg, "w").write("SPECIFICATION MSpec\nINVARIANT Done\nCHECK_DEADLOCK FALSE\n")
+    tv = validate_file("MemEst", cfg, tr, pid + "_memest", nshards=8, boundary=None, timeout=1200)
+    if tv["errors"]:
+        raise ToolError("memest validation incomplete: " + "; ".join(tv["errors"][:3]))
+    fails = sorted(set(l for (i, l) in tv["fails"] if i == "C05"))
+    violations = []
+    lines = open(tr).readlines()
+    os.makedirs(REPLAYS, exist_ok=True)
+    seen_ty = set()
+    for ln in fails:
+        e = json.loads(lines[ln - 1])
+        if e["ty"] in seen_ty:
+            continue
+        seen_ty.add(e["ty"])
+        tp = os.path.join(REPLAYS, "%s_memest_%d.ndjson" % (pid, ln))
+        open(tp, "w").write(lines[ln - 1])
+        violations.append(("estimate_memory() of a %s is %d, its inline size plus owned heap capacity is different (descriptor in the replay file)"
+                           % (e["ty"], e["est"]), tp))
+    log("[%s] estimator fidelity: %d values of 16 standard types, TLC compared estimate with Footprint(descriptor): %d mismatches" %
+        (pid, rs["events"], len(fails)))
+    cov = {"states": rs["events"], "transitions": rs["events"], "traces_validated_against_impl": rs["events"],
+           "samples": [json.loads(lines[i]) for i in (0, 7)], "details": {"values": rs["events"], "mismatches": len(fails)},
+           "explanation": "estimate_memory() vs MemEst!Footprint on generated values of the std types the property names"}
+    return violations, [], cov, time.time() - t0
